@@ -28,6 +28,9 @@ STALE_FIXED = True
 # False: the cache string does not record the builders' type parameter
 ST_IN_CACHE = True
 
+# True once /repo removes earlier output also when a build PANICS (StorageT not big enough: the documented refusal)
+PANIC_CLEANUP_FIXED = False
+K_PANIC = "generated files of an earlier build survive a build that panics because StorageT is not big enough"
 K_STALE = "stale generated file survives a build that fails with a grammar/lexer syntax error"
 K_LEXOUT = "lexer output of an earlier build survives a build that fails at the parser's conflict check"
 K_ST = "parser output not regenerated when only the builders' StorageT/LexerTypesT type parameter changes (not in the cache string)"
@@ -509,7 +512,59 @@ def run(ctx):
         shutil.rmtree(WORKROOT, ignore_errors=True)
 
 
+def panic_probe(ctx, exe):
+    """A build that ends in the documented 'StorageT is not big enough' panic is a failing build: a clean build with the
+    same sources and settings produces no file, so no generated file of an earlier build may be left behind.  (The
+    Coq mirror has no notion of a grammar too big for the storage type; this clause is evaluated directly.)"""
+    toks = ["T%d" % i for i in range(300)]
+    ysrc = _H + "%%\nE: " + " | ".join("'%s' { %d }" % (t, i) for i, t in enumerate(toks)) + " ;\n"
+    lsrc = "%%\n" + "".join("x%dy \"%s\"\n" % (i, t) for i, t in enumerate(toks)) + "[ \\t\\n]+ ;\n"
+    nbad = 0
+    for mode in ("P", "C"):
+        casedir = os.path.join(WORKROOT, "panic_" + mode)
+        shutil.rmtree(casedir, ignore_errors=True)
+        src, out = os.path.join(casedir, "src"), os.path.join(casedir, "out")
+        os.makedirs(src)
+        os.makedirs(out)
+        ypath, lpath = os.path.join(src, "g.y"), os.path.join(src, "l.l")
+        yout, lout = os.path.join(out, "g.y.rs"), os.path.join(out, "l.l.rs")
+        open(ypath, "w").write(ysrc)
+        open(lpath, "w").write(lsrc)
+        set_mtime(ypath, 0)
+        set_mtime(lpath, 0)
+        c = dict(DEFAULT)
+        steps = []
+        for k, st in enumerate((2, 0, 2)):          # u32, u8 (too small: 301 tokens), u32 again
+            c["st"] = st
+            res = spawn(exe, harness_line(mode, c, ypath, yout, lpath, lout))
+            for pth in (yout, lout):
+                if os.path.exists(pth):
+                    set_mtime(pth, k + 1)
+            steps.append({"storage": ["u8", "u16", "u32"][st], "result": classify(res, ypath, lpath)[0], "raw": res[:120],
+                          "parser_output_exists": os.path.exists(yout), "lexer_output_exists": os.path.exists(lout)})
+        ok0 = steps[0]["result"] == "ok" and steps[0]["parser_output_exists"] and (mode == "P" or steps[0]["lexer_output_exists"])
+        ok2 = steps[2]["result"] == "ok" and steps[2]["parser_output_exists"]
+        left = steps[1]["parser_output_exists"] or steps[1]["lexer_output_exists"]
+        ctx.case("panic-probe " + mode, True, {"mode": mode, "steps": steps})
+        ctx.count("panic_probe_%s_%s" % (mode, steps[1]["result"]))
+        if not (ok0 and ok2 and steps[1]["result"] == "panic"):
+            ctx.violation({"what": "StorageT probe: unexpected outcomes (expected ok, the documented panic, ok)", "mode": mode, "steps": steps},
+                          no_input=True)
+            nbad += 1
+        elif left:
+            ctx.violation({"what": "a build that panics ('StorageT is not big enough') leaves the generated file(s) of the earlier build in "
+                                   "place; a clean build with these sources and settings produces none",
+                           "history": "300-token grammar: build with u32; switch the builders to u8; build (panics); files still there",
+                           "mode": mode, "steps": steps, "kind": "counterexample"},
+                          known_key=None if PANIC_CLEANUP_FIXED else K_PANIC)
+            if PANIC_CLEANUP_FIXED:
+                nbad += 1
+        shutil.rmtree(casedir, ignore_errors=True)
+    ctx.oblige(nbad == 0, "no generated file survives a panicking build")
+
+
 def _run(ctx, exe, mexe, rng):
+    panic_probe(ctx, exe)
     hs = [h + (default_times(h[3]),) for h in targeted_histories()] + same_tick_histories()
     for _ in range(ctx.n(150, 2500)):
         mode = "C" if rng.random() < 0.6 else "P"
